@@ -103,6 +103,22 @@ impl World {
     }
 }
 
+impl World {
+    /// Within `margin` ns of a discontinuity of the (correct or F12b-deformed) TAI->UTC map: there a
+    /// tolerance on the TAI instant (ET/TDB operands) makes the UTC reading ambiguous by a whole second.
+    pub fn near_utc_discontinuity(&self, t: i128, margin: i128) -> bool {
+        for &(ts, o) in &self.leap {
+            let a = ts as i128 * NS_S;
+            for edge in [a, a + (o as i128 - 1) * NS_S, a + o as i128 * NS_S] {
+                if (t - edge).abs() <= margin {
+                    return true;
+                }
+            }
+        }
+        false
+    }
+}
+
 pub fn scale_idx(s: TimeScale) -> u64 {
     u8::from(s) as u64
 }
